@@ -49,8 +49,22 @@ pub const HISTORY_PLIES: [usize; 8] = [0, 0, 0, 0, 40, 160, 300, 380];
 /// (a documented heuristic at the root). So that this heuristic stays out of the way of what C10 judges,
 /// the record is built so that it does NOT end in such a pattern: the last cycle uses another opponent
 /// move than the one before it; if the position offers no two such cycles, the record is one cycle long.
-fn game_with_history(p: &Pos, plies: usize) -> Result<(Game, usize), Fail> {
-    let mut g = Game::new(&p.fen6()).map_err(|e| Fail::new("sane-position-not-importable", e.to_string()))?;
+fn game_with_history(p: &Pos, plies: usize, max_halfmove: u64) -> Result<(Game, usize), Fail> {
+    // the two counter fields of the FEN are varied too (a checkmate stands even when it is delivered by the move that
+    // completes the fifty moves, so a mate in one may start from a clock of 99 and a mate in two from 96)
+    let fp = fp_pos(p);
+    let halfmove = if p.ep.is_some() {
+        0
+    } else {
+        match fp % 4 {
+            0 => 0,
+            1 => (fp >> 4) % (max_halfmove + 1),
+            2 => max_halfmove,
+            _ => max_halfmove.saturating_sub(1),
+        }
+    };
+    let fullmove = (1 + (fp >> 12) % 300).max(halfmove / 2 + 1);
+    let mut g = Game::new(&format!("{} {} {}", p.fen4(), halfmove, fullmove)).map_err(|e| Fail::new("sane-position-not-importable", e.to_string()))?;
     let mut done = 0;
     if plies >= 4 {
         let cycles = shuffle_cycles(p);
@@ -331,7 +345,7 @@ impl C10 {
     fn judge(&self, p: &Pos, lab: Label, via_uci: bool, history: u8, ev: &mut Ev) -> Result<(), Fail> {
         let p_fen = p.fen6();
         let case = |via: bool| serde_json::to_value(MateCase::Fen { fen: p_fen.clone(), via_uci: via, history }).unwrap();
-        let (g, plies_done) = game_with_history(p, HISTORY_PLIES[history as usize % HISTORY_PLIES.len()])?;
+        let (g, plies_done) = game_with_history(p, HISTORY_PLIES[history as usize % HISTORY_PLIES.len()], if lab == Label::Mate2 { 96 } else { 99 })?;
         let fen = if plies_done > 0 { format!("{} (at the end of a game record of {} plies)", p_fen, plies_done) } else { p_fen.clone() };
         if plies_done > 0 {
             ev.class(if plies_done >= 160 { "labelled_positions_after_160_or_more_plies_of_history" } else { "labelled_positions_after_40_plies_of_history" });
@@ -486,7 +500,7 @@ impl Prop for C10 {
     }
 
     fn rule(&self) -> String {
-        "Cases: random small-material positions (kings + 1-6 men), themed small positions (defender king caged in a corner by its own men against king + minor pieces / pawns; attacker pawn on the seventh rank beside the defender king - promotion, under-promotion and promotion-capture mates; all mirrored and colour-swapped) and ends of generated walks, labelled by the reference model's own solver: no legal move; mate in 1; forced mate in 2 (no mate in 1; a move after which the opponent has a reply and every reply allows mate in 1); everything else is counted as an unlabelled candidate and not searched. Fresh table each time; half of the labelled positions stand at the end of a game record of 40, 160, 300 or 380 plies (both sides shuffling a piece out and back), as after `position … moves …`. Mate in 1: depth 3, 4, 5 and an unlimited search must return a mating move, and the unlimited search must return by itself with no iteration beyond depth 5. Mate in 2: depth 5, 6 and unlimited must return a key move or a move after which the model can still prove a forced mate within 3 more moves (solver budget exhaustion = inconclusive); unlimited search must end by itself at depth <= 7. No legal move: the search returns no move (and the binary prints `bestmove none`). A sample goes through the real binary. Thorough adds the exhaustive KQK and KRK tables. evaluations = searches judged. Non-trivial = every labelled position; distinct by position.".into()
+        "Cases: random small-material positions (kings + 1-6 men), themed small positions (defender king caged in a corner by its own men against king + minor pieces / pawns; attacker pawn on the seventh rank beside the defender king - promotion, under-promotion and promotion-capture mates; all mirrored and colour-swapped; positions built so that castling, respectively an en-passant capture, is a mate in one) and ends of generated walks, labelled by the reference model's own solver: no legal move; mate in 1; forced mate in 2 (no mate in 1; a move after which the opponent has a reply and every reply allows mate in 1); everything else is counted as an unlabelled candidate and not searched. Fresh table each time; the halfmove-clock and move-number fields of the imported FEN are varied (clock 0-99 for mates in one and dead roots, 0-96 for mates in two: a checkmate stands even when it completes the fifty moves); half of the labelled positions stand at the end of a game record of 40, 160, 300 or 380 plies (both sides shuffling a piece out and back), as after `position … moves …`. Mate in 1: depth 3, 4, 5 and an unlimited search must return a mating move, and the unlimited search must return by itself with no iteration beyond depth 5. Mate in 2: depth 5, 6 and unlimited must return a key move or a move after which the model can still prove a forced mate within 3 more moves (solver budget exhaustion = inconclusive); unlimited search must end by itself at depth <= 7. No legal move: the search returns no move (and the binary prints `bestmove none`). A sample goes through the real binary. Thorough adds the exhaustive KQK and KRK tables. evaluations = searches judged. Non-trivial = every labelled position; distinct by position.".into()
     }
 
     fn assumptions(&self) -> Vec<String> {
